@@ -30,7 +30,7 @@ RULES = [
 REG_RULES = [
     'p(X).', 'p(a).', 'p(#inf).', 'p(1 + 2).', 'p(X * Y - 3).', 'p(-X).', 'p(1 / 2).', 'p(X \\ 2).', 'p(a + 1).', 'p(#sup - 1).',
     'p(1..3).', 'p(X..Y).', 'p(a..3).', 'p(1..#sup).', 'p((1..2)..3).', 'p((1..2) + 1).', 'p(1..2, X + 1).', '{p(1..X)} :- q(X).',
-    'p(X) :- q(1..2).', 'p(X) :- q(X + 1).', 'p(X) :- q(a + 1).', 'p(X) :- X = 1..3.', 'p(X) :- 1..3 = X.', 'p(X) :- X < 1..3.',
+    'p(X) :- q(1..2).', 'p(X) :- q(X, 1..2).', 'p(X) :- q(X, Y), not r(1, 2..3).', 'p(X) :- X = 1..2..3.', 'p(X) :- q(X + 1).', 'p(X) :- q(a + 1).', 'p(X) :- X = 1..3.', 'p(X) :- 1..3 = X.', 'p(X) :- X < 1..3.',
     'p(X) :- X = a..3.', 'p(X) :- X = Y + 1, q(Y).', 'p(X) :- X != a, X < #sup.', 'p(X) :- X = (1..2) + 1.', ':- p(X / 2).',
     ':- p(X), X * X = 4.', 'p(X) :- not q(X - 1), not not q(2 * X).', 'p(X) :- q(-(a)).', 'p(X) :- q(-(1..2)).', 'p(X) :- X = 1..Y * 2, q(Y).',
 ]
@@ -47,6 +47,9 @@ ACCEPT = [
     ('private-recursion-right', 'program', 'p(X) :- q(X).', 'r(X) :- q(X), not r(X). p(X) :- r(X).', UG),
     ('private-recursion-through-public-is-fine', 'program', 'r(X) :- p(X). p(X) :- q(X), not r(X).', 'p(X) :- q(X).', UG),
     ('private-choice', 'program', '{r(X)} :- q(X). p(X) :- r(X).', 'p(X) :- q(X).', UG),
+    ('private-choice-right', 'program', 'p(X) :- q(X).', '{r(X)} :- q(X). p(X) :- r(X).', UG),
+    ('private-recursion-via-second-literal', 'program', 'r(X) :- q(X), not not r(X). p(X) :- r(X).', 'p(X) :- q(X).', UG),
+    ('input-name-with-other-arity-in-head-is-fine', 'program', 'q(X, X) :- q(X). p(X) :- q(X, X).', 'p(X) :- q(X).', UG),
     ('public-choice', 'program', '{p(X)} :- q(X).', '{p(X)} :- q(X), X = X.', UG),
     ('input-in-head-left', 'program', 'q(1). p(X) :- q(X).', 'p(X) :- q(X).', UG),
     ('input-in-head-right-choice', 'program', 'p(X) :- q(X).', '{q(X)} :- p(X). p(X) :- q(X).', UG),
